@@ -3,6 +3,9 @@ import NfpmModel.Spec.PlanSpec
 import NfpmModel.Spec.PayloadSpec
 import NfpmModel.Spec.ScriptSpec
 import NfpmModel.Spec.NameSpec
+import NfpmModel.Expand
+import NfpmModel.Generated.G4Expand
+import NfpmModel.Generated.G5KeyTree
 /-
   Model driver: one request per line on stdin, one answer per line on stdout.
   Core-only so that it links as a `lean_exe`.
@@ -149,6 +152,27 @@ def handle (op : String) (args : List String) : Except String String :=
       pure (f, fn, n, v, r, a)) args
     let v := Spec.checkFileName f fn n v r a
     pure (if v.isEmpty then "holds" else "violated " ++ String.intercalate ";" v)
+  | "expand" => do
+    let (env, v) ← run1 (do
+      let env ← pList (do let a ← pBytes; let b ← pBytes; pure (a, b))
+      let v ← pBytes
+      pure (env, v)) args
+    pure (hex (expand env v))
+  | "expandslice" => do
+    let (env, items) ← run1 (do
+      let env ← pList (do let a ← pBytes; let b ← pBytes; pure (a, b))
+      let items ← pList pBytes
+      pure (env, items)) args
+    pure (showBytesList (expandSlice env items))
+  | "passphrase" => do
+    let (env, v) ← run1 (do
+      let env ← pList (do let a ← pBytes; let b ← pBytes; pure (a, b))
+      let v ← pBytes
+      pure (env, v)) args
+    pure (hex (passphrase env v))
+  | "g4paths" => pure (showBytesList Generated.expandedScalars ++ " " ++ showBytesList Generated.expandedSlices
+      ++ " " ++ showBytesList Generated.expandedContents)
+  | "g5paths" => pure (showBytesList (Generated.keyPaths.map (fun p => p.1 ++ [58] ++ p.2)))
   | "configpaths" => do
     let plan ← run1 (pList pContentOut) args
     pure (showBytesList (Spec.configPaths plan))
